@@ -166,6 +166,16 @@ pub fn fixture(tier: Tier) -> Result<Fixture, Violation> {
         d.push(Dgram { desc: format!("valid response seq {} padded by 40", seq), bytes: p, valid: Validity::Invalid });
         d.push(Dgram { desc: format!("valid response seq {} truncated by 1", seq), bytes: b[..b.len() - 1].to_vec(), valid: Validity::Invalid });
     }
+    if tier == Tier::Thorough {
+        let b = nc::seal(&Packet::Response { token_sequence: cs1, token_data: cd1 }, PROTOCOL, 1, &t1.token.client_to_server_key);
+        for i in 0..b.len() {
+            for bit in 0..8u8 {
+                let mut x = b.clone();
+                x[i] ^= 1 << bit;
+                d.push(Dgram { desc: format!("valid response with bit {} of byte {} flipped", bit, i), bytes: x, valid: Validity::Invalid });
+            }
+        }
+    }
     d.push(Dgram {
         desc: "response with a garbage challenge".into(),
         bytes: nc::seal(&Packet::Response { token_sequence: 1, token_data: [7u8; 300] }, PROTOCOL, 2, &t1.token.client_to_server_key),
